@@ -52,7 +52,7 @@ type world struct {
 	fhs  []chainhash.Hash // by fid
 	r    *rand.Rand
 
-	checkAllGone bool // the next dump looks every removed block hash up (after a deep rollback)
+	checkAllGone bool // the next dump looks every removed block hash up (after a deep rollback, a failed or interrupted bulk append)
 }
 
 type faultFile struct {
@@ -982,6 +982,86 @@ func (g *gen) reads() {
 	}
 }
 
+// askFAnc asks the FILTER header store for the n ancestors of a block hash (the
+// height comes from the shared block index, the range from the filter file):
+// whenever the block store is ahead, a stop hash above the filter tip names a
+// range the filter file does not hold - all of it or only its upper part.
+func (g *gen) askFAnc(n uint32, id int) {
+	w := g.w
+	hash := w.bhdr[id].BlockHash()
+	hs, start, err := w.fs.FetchHeaderAncestors(n, &hash)
+	if err != nil {
+		g.emit(fmt.Sprintf("fanc %d %d", n, id), "err")
+		return
+	}
+	var ss []string
+	for _, x := range hs {
+		ss = append(ss, w.fname(x))
+	}
+	g.emit(fmt.Sprintf("fanc %d %d", n, id), fmt.Sprintf("%d [%s]", start, strings.Join(ss, " ")))
+}
+
+// rangeReads: ancestor ranges of both stores placed at the boundaries on
+// purpose - ending at the tip, straddling the filter tip (stop hash above it,
+// start at or below it), entirely above it, reaching down to genesis, one more
+// than exist.  Drawn from a stream of its own.
+func (g *gen) rangeReads(r *rand.Rand) {
+	w := g.w
+	tipH, _, err := w.tipB()
+	if err != nil {
+		return
+	}
+	_, ftipH, err := w.fs.ChainTip()
+	if err != nil {
+		return
+	}
+	type q struct{ h, n uint32 }
+	var qs []q
+	qs = append(qs, q{ftipH, uint32(r.Intn(int(ftipH) + 1))}, q{ftipH, ftipH}, q{ftipH, ftipH + 1})
+	if tipH > ftipH {
+		g.t.Hit("store.fanc.block-store-ahead")
+		above := ftipH + 1 + uint32(r.Intn(int(tipH-ftipH)))
+		qs = append(qs,
+			q{above, above - ftipH},                                // starts exactly at the filter tip
+			q{above, above - ftipH + uint32(r.Intn(int(ftipH)+1))}, // starts at or below it
+			q{above, above},                                        // down to genesis
+			q{tipH, 0},                                             // entirely above
+			q{ftipH + 1, 1})
+	}
+	for i, x := range qs {
+		if (i <= 2 || len(qs) <= 3) && r.Intn(3) != 0 {
+			continue // ranges inside the file: a sample
+		}
+		if i > 2 && i > 4 && r.Intn(2) == 0 {
+			continue
+		}
+		id := w.blockAt(x.h)
+		if id < 0 {
+			continue
+		}
+		g.askFAnc(x.n, id)
+		if x.h > ftipH && x.n >= x.h-ftipH {
+			g.t.Hit("store.fanc.straddles-filter-tip")
+		}
+	}
+	// the same on the block store: ending at the tip, down to genesis, one too many
+	if id := w.blockAt(tipH); id >= 0 {
+		for _, n := range [][]uint32{{uint32(r.Intn(int(tipH) + 1))}, {tipH}, {tipH + 1}}[r.Intn(3)] {
+			hash := w.bhdr[id].BlockHash()
+			hs, start, err := w.bs.FetchHeaderAncestors(n, &hash)
+			if err != nil {
+				g.emit(fmt.Sprintf("anc %d %d", n, id), "err")
+				continue
+			}
+			var ss []string
+			for _, x := range hs {
+				ss = append(ss, w.bname(x.BlockHash()))
+			}
+			g.emit(fmt.Sprintf("anc %d %d", n, id), fmt.Sprintf("%d [%s]", start, strings.Join(ss, " ")))
+		}
+	}
+}
+
 func (g *gen) askXF(id int) {
 	w := g.w
 	hash := w.bhdr[id].BlockHash()
@@ -1114,8 +1194,140 @@ func deepCase(t *tr.W, r *rand.Rand) {
 	t.Hit("store.deep-case")
 }
 
+// bulkSizes: batches above every plausible internal chunk size of the stores
+// (P2P sync hands over at most 2000 headers, the header import 65536 by
+// default; 2000 and 4000 are the chunk sizes seen so far).
+func bulkSizes(r *rand.Rand) []int {
+	return []int{2001 + r.Intn(400), 4001 + r.Intn(400), 8001 + r.Intn(400)}
+}
+
+// bulkFaultCase: ONE WriteHeaders call of n headers whose k-th durable step
+// (0 = the file write, 1 = the first index transaction, 2.. = further
+// transactions, should the index write a big batch in several) fails - the
+// transaction body runs and its commit fails, or it fails outright.  Whatever
+// the store does inside, the append is all or nothing: after a reported
+// failure every by-height, by-hash and tip answer is what it was, and NONE of
+// the batch's hashes resolves (every one is looked up); after a success the
+// whole batch is there.  Then the batch is rolled back (if it went in) and the
+// next step is tried on the same store, which also shows that nothing was left
+// behind by the failures before.
+func bulkFaultCase(t *tr.W, r *rand.Rand, n int, steps []int) {
+	w := newWorld(r)
+	defer w.destroy()
+	g := &gen{w: w, r: r, t: t, faults: true}
+	t.Case("store faults")
+	g.emit("dump", w.dump())
+	for i, k := range steps {
+		tipH, tipHash, err := w.tipB()
+		if err != nil {
+			return
+		}
+		var batch []int
+		prev := tipHash
+		for j := 0; j < n; j++ {
+			id := w.newBlock(prev)
+			prev = w.bhdr[id].BlockHash()
+			batch = append(batch, id)
+		}
+		w.faultKind = []string{"dbcommit", "dberr"}[(i+n)%2]
+		w.faultStep, w.faultArg = k, 0
+		t.Line("fault %s %d %d", w.faultKind, k, 0)
+		obs := w.run(func() string { return w.writeBlocks(batch, tipH+1) })
+		g.emit(strings.TrimSpace("wb "+ids(batch)), obs)
+		t.Hit(fmt.Sprintf("store.bulk.fault-at-step-%d.%s", k, obs))
+		w.checkAllGone = true
+		g.emit("dump", w.dump())
+		// by-hash lookups of the batch's first, middle and last header, and of the old tip
+		for _, id := range []int{batch[0], batch[n/2], batch[n-1], w.bid[tipHash]} {
+			hash := w.bhdr[id].BlockHash()
+			if _, height, err := w.bs.FetchHeader(&hash); err != nil {
+				g.emit(fmt.Sprintf("xb %d", id), "nf")
+			} else {
+				g.emit(fmt.Sprintf("xb %d", id), strconv.Itoa(int(height)))
+			}
+			g.askXF(id)
+		}
+		if obs == "ok" {
+			g.emit(fmt.Sprintf("rb %d", n), w.run(func() string {
+				st, err := w.bs.RollbackBlockHeaders(uint32(n))
+				if err != nil {
+					return "err"
+				}
+				return fmt.Sprintf("ok %d:%s", st.Height, w.bname(st.Hash))
+			}))
+			w.checkAllGone = true
+			g.emit("dump", w.dump())
+		}
+	}
+	w.close()
+	g.emit("reopen", errClass(w.open()))
+	w.checkAllGone = true
+	g.emit("dump", w.dump())
+}
+
+// bulkCrashCase: the same bulk append killed before (or right after) its k-th
+// durable step, restart, every hash of the interrupted batch looked up: the
+// store holds the batch or does not, entirely.
+func bulkCrashCase(t *tr.W, r *rand.Rand, n int, steps []int) {
+	w := newWorld(r)
+	defer w.destroy()
+	g := &gen{w: w, r: r, t: t, crashes: true}
+	t.Case("store crashes")
+	g.emit("dump", w.dump())
+	for i, k := range steps {
+		tipH, tipHash, err := w.tipB()
+		if err != nil {
+			return
+		}
+		var batch []int
+		prev := tipHash
+		for j := 0; j < n; j++ {
+			id := w.newBlock(prev)
+			prev = w.bhdr[id].BlockHash()
+			batch = append(batch, id)
+		}
+		w.crashStep, w.crashTorn = k, 1<<30
+		w.crashAfter = (i+n)%2 == 0
+		if w.crashAfter {
+			t.Line("crashafter %d", k)
+		} else {
+			t.Line("crash %d %d", k, w.crashTorn)
+		}
+		obs := w.run(func() string { return w.writeBlocks(batch, tipH+1) })
+		g.emit(strings.TrimSpace("wb "+ids(batch)), obs)
+		t.Hit(fmt.Sprintf("store.bulk.crash-at-step-%d.%s", k, obs))
+		if obs == "crashed" {
+			w.close()
+			err := w.open()
+			g.emit("reopen", errClass(err))
+			if err != nil {
+				t.Line("# reopen error: %v", err)
+				return
+			}
+		}
+		w.checkAllGone = true
+		g.emit("dump", w.dump())
+		th, _, err := w.tipB()
+		if err != nil {
+			return
+		}
+		if th > tipH {
+			g.emit(fmt.Sprintf("rb %d", n), w.run(func() string {
+				st, err := w.bs.RollbackBlockHeaders(uint32(n))
+				if err != nil {
+					return "err"
+				}
+				return fmt.Sprintf("ok %d:%s", st.Height, w.bname(st.Hash))
+			}))
+			w.checkAllGone = true
+			g.emit("dump", w.dump())
+		}
+	}
+}
+
 // Cases emits n cases.  mode: "plain" (no faults), "faults", "crashes".
 func Cases(t *tr.W, r *rand.Rand, n int, mode string) {
+	rr := tr.Rng(707)
 	for i := 0; i < n; i++ {
 		w := newWorld(r)
 		g := &gen{w: w, r: r, t: t, crashes: mode == "crashes", faults: mode == "faults"}
@@ -1128,6 +1340,9 @@ func Cases(t *tr.W, r *rand.Rand, n int, mode string) {
 			}
 			g.emit("dump", w.dump())
 			g.reads()
+			if rr.Intn(5) == 0 {
+				g.rangeReads(rr)
+			}
 		}
 		w.destroy()
 	}
@@ -1146,6 +1361,17 @@ func init() {
 			b, k = 1, 3
 		}
 		deepCase(t, r)
+		{
+			rb := tr.Rng(7007)
+			sz := bulkSizes(rb)
+			bulkFaultCase(t, rb, sz[0], []int{1, 2})
+			bulkFaultCase(t, rb, sz[1], []int{2, 1, 3})
+			bulkFaultCase(t, rb, sz[2], []int{3, 2})
+			if thorough {
+				bulkFaultCase(t, rb, sz[2], []int{1, 4, 5})
+				bulkFaultCase(t, rb, 16001+rb.Intn(400), []int{2, 3, 4, 5, 8})
+			}
+		}
 		Cases(t, r, b*k*tr.EnvInt("STORE_PLAIN", 100), "plain")
 		Cases(t, r, b*k*tr.EnvInt("STORE_FAULTS", 130), "faults")
 		if template != "" {
@@ -1163,6 +1389,16 @@ func init() {
 			b, k = 1, 3
 		}
 		InitCases(t, r)
+		{
+			rb := tr.Rng(8008)
+			sz := bulkSizes(rb)
+			bulkCrashCase(t, rb, sz[0], []int{2, 1})
+			bulkCrashCase(t, rb, sz[1], []int{2, 3, 1})
+			bulkCrashCase(t, rb, sz[2], []int{3, 2})
+			if thorough {
+				bulkCrashCase(t, rb, 16001+rb.Intn(400), []int{2, 3, 4, 5, 8})
+			}
+		}
 		Cases(t, r, b*k*tr.EnvInt("STORE_CRASHES", 220), "crashes")
 		if template != "" {
 			defer os.RemoveAll(template)
